@@ -536,7 +536,8 @@ fn eval_c14(job: &Job) -> JobResult {
 /// the previous schedule branch while that thread is still enabled (not Disabled, not Yield).
 /// Also checks loom's own `preemptions` field (pre-emptions before each branch).
 pub fn count_preemptions(path: &[Branch]) -> (u32, Option<String>) {
-    let mut prev: Option<u8> = None;
+    // the main thread is the one running before the first schedule branch
+    let mut prev: Option<u8> = Some(0);
     let mut count = 0u32;
     let mut mismatch = None;
     for (i, b) in path.iter().enumerate() {
@@ -560,6 +561,41 @@ pub fn count_preemptions(path: &[Branch]) -> (u32, Option<String>) {
     (count, mismatch)
 }
 
+/// Pre-emptions visible in the completion history alone, replayed on the SC machine: a switch
+/// from t to u between two consecutive completions counts iff t's next op exists and is enabled
+/// in the reference state at that point. Uses nothing of loom's bookkeeping. A lower bound on
+/// the real number (switches that complete no op are invisible). `None` if the history cannot
+/// be replayed in completion order (multi-step ops).
+pub fn history_preemptions(p: &Program, hist: &crate::accept::History) -> Option<u32> {
+    let mode = scm::Mode { hb: false, any_waiter: true, spurious: true };
+    let mut s = scm::St::init(p);
+    let mut count = 0u32;
+    for (k, (t, i, r)) in hist.iter().enumerate() {
+        let t = *t as usize;
+        if s.th[t].pc != *i as usize {
+            return None;
+        }
+        let next = s.succ(p, t, mode).into_iter().find(|(_, fin)| *fin == Some(*r));
+        match next {
+            Some((n, _)) => s = n,
+            None => return None,
+        }
+        if let Some((u, _, _)) = hist.get(k + 1) {
+            if *u as usize != t {
+                // could t have continued?
+                let more = s.th[t].pc < p.threads[t].len();
+                if more && !matches!(p.threads[t][s.th[t].pc].k, K::Yield) {
+                    let enabled = s.succ(p, t, mode).iter().any(|(n, _)| !n.via_spurious);
+                    if enabled {
+                        count += 1;
+                    }
+                }
+            }
+        }
+    }
+    Some(count)
+}
+
 fn eval_c15(job: &Job) -> JobResult {
     let p = &job.program;
     let mut res = JobResult::default();
@@ -576,8 +612,22 @@ fn eval_c15(job: &Job) -> JobResult {
         let mut cfg = job.cfg.clone();
         cfg.preemption_bound = *b;
         let bound = *b;
+        let prog = p.clone();
         let per_iter: Box<dyn FnMut(&IterData) -> Option<Viol>> = Box::new(move |it: &IterData| {
             let (n, mismatch) = count_preemptions(&it.path);
+            // independent count from the completion history (no loom bookkeeping involved)
+            if it.complete() {
+                if let Some(h) = history_preemptions(&prog, &it.history) {
+                    if h > n {
+                        return Some(viol("recount_inconsistent", format!("bound={:?}", bound), "the history shows no more pre-emptions than the schedule branches".into(), format!("iteration {}: history {} > branches {}", it.index, h, n), json!({"path": fmt_path(&it.path), "history": crate::accept::fmt_history(&it.history)})));
+                    }
+                    if let Some(bd) = bound {
+                        if h as usize > bd {
+                            return Some(viol("bound_exceeded_by_history", format!("bound={} preemptions={}", bd, h), format!("at most {} switches away from a runnable thread", bd), format!("iteration {} has {} visible in its completion history", it.index, h), json!({"history": crate::accept::fmt_history(&it.history)})));
+                        }
+                    }
+                }
+            }
             // loom's own counter also counts "a different thread than the default one was picked
             // after the running thread blocked"; it may exceed the recount (conservative), which
             // the property allows. Only the recount is compared with the bound.
